@@ -46,3 +46,51 @@ def nonzero_rows(node):
     if isinstance(node, ast.Call) and _fname(node) == "flatnonzero" and len(node.args) == 1:
         return node.args[0]
     return None
+
+
+def keyed_stores(ix, f, container="self._data", strip=True, _depth=1):
+    """[(key, value text, where)] for every `<container>[<key>] = <value>` that running `f` performs - in its own body, or
+    in a method of its class that it hands the key and the value to (`self._store(key, value)`: one level, arguments
+    bound by position or keyword).  `key` is the constant key (a str) or the canonical text of a non-constant one; the
+    value is the canonical text on the value graph of the function that contains the store, with the helper's
+    parameters replaced by the caller's argument values.  strip=False keeps conversion calls visible."""
+    import re
+
+    from .dag import Values
+
+    V = Values(ix, f, strip=strip)
+    out = []
+    for st in ast.walk(f.node):
+        if isinstance(st, ast.Assign) and isinstance(st.targets[0], ast.Subscript) and ast.unparse(st.targets[0].value) == container:
+            k = st.targets[0].slice
+            key = k.value if isinstance(k, ast.Constant) else V.text(V.value(k, st), 6, 300)
+            out.append((key, V.text(V.value(st.value, st), 8, 600), f.where))
+    if _depth <= 0 or f.cls is None:
+        return out
+    recv = container.split(".")[0]
+    for c in ast.walk(f.node):
+        if not (isinstance(c, ast.Call) and isinstance(c.func, ast.Attribute) and isinstance(c.func.value, ast.Name) and c.func.value.id == recv):
+            continue
+        mem = ix.member(f.cls, c.func.attr)
+        h = mem.get("method") if mem else None
+        if h is None or h is f or any(isinstance(a, ast.Starred) for a in c.args) or any(k.arg is None for k in c.keywords):
+            continue
+        inner = keyed_stores(ix, h, container.replace(recv, h.params[0], 1) if h.params else container, strip, _depth - 1)
+        if not inner:
+            continue
+        st = V.pv.stmt_of(c)
+        if st is None:
+            continue
+        bound = dict(zip(h.params[1:], c.args))
+        bound.update({k.arg: k.value for k in c.keywords})
+        texts = {p_: (a_.value if isinstance(a_, ast.Constant) else None, V.text(V.value(a_, st), 8, 600)) for p_, a_ in bound.items()}
+
+        def sub(t):
+            return re.sub(r"\bP_(\w+)\b", lambda m: texts[m.group(1)][1] if m.group(1) in texts else m.group(0), t)
+
+        for key, val, where in inner:
+            m = re.fullmatch(r"P_(\w+)", key) if isinstance(key, str) else None
+            if m and m.group(1) in texts:
+                key = texts[m.group(1)][0] if texts[m.group(1)][0] is not None else texts[m.group(1)][1]
+            out.append((key, sub(val), where))
+    return out
